@@ -46,13 +46,18 @@ CLAIMED = {
          "C02_bits (tools/templates/OblC02.v, per run): for every encodable definition (263) and EVERY message, each field of "
          "the integer the generated encoder produces reads back as the value its conversion produced (mod 2^len); C02_absent "
          "(None -> not-available pattern -> None), C02_number (accepted numbers read back, sign-extended, as round(value/"
-         "resolution), never as not-available), C02_lookup_reserved (raw bits unchanged). PARTIAL: that round(fl(fl(n)*r)/r) = n "
-         "on IEEE doubles (the step from 'rounded quotient' to 'the original raw value') is established by the witness search "
-         "(every raw value of small fields, boundary classes of all fields) and the design's Flocq spike, not yet by a theorem "
-         "in this development.",
+         "resolution), never as not-available), C02_lookup_reserved (raw bits unchanged). C02_float "
+         "(Flocq error analysis on the executable model functions, proved for all bits/len/resolution): whatever decode_number produced from a "
+         "field's bits (None for the not-available pattern, else the double fl(fl(n)*resolution) or the int n*k that passed the range "
+         "check), encode_number turns back into exactly those bits, for float resolutions 2^-300<=|r|<=2^300 and fields up to 48 bits "
+         "(49 signed), integer resolutions while 2^len*k<=2^53; C02_numeric_fields (per run): every NUMBER/DATE/TIME/DURATION field of "
+         "at most 48 bits of every encodable definition in the regenerated tables satisfies those hypotheses. Wider fields (the property "
+         "only asks for closeness there) are decided by the witness search.",
          "Trusted: Coq kernel + vm_compute + native float primitives; translators; Encode.v hand model of utils encoders, "
-         "Python round() and true division, tied by ~5k kernel-decided cases per run. Known finding: 64-bit field at the very "
-         "edge of its range cannot be re-encoded.",
+         "Python round() and true division, tied by ~5k kernel-decided cases per run. C02_float depends on the primitive-float/Uint63 "
+         "specification axioms of Coq.Floats.FloatAxioms, the real-number axioms (ClassicalDedekindReals.sig_forall_dec, sig_not_dec, "
+         "functional_extensionality_dep) and Classical_Prop.classic via Flocq/Reals — all standard-library axioms, listed by Print "
+         "Assumptions in the evidence. Known finding: 64-bit field at the very edge of its range cannot be re-encoded.",
          "DESIGN.md §5 C02"),
  "C09": ("Coq proofs of the decision rules of the encoder model (range rejection, missing field, bit locality, absent) + "
          "per-run kernel-checked encoder tables + correspondence on the value classes of the quantifier text",
@@ -71,8 +76,50 @@ CLAIMED = {
          "C04_frame/product/refines/interleave/safety/once/complete/recover/padding/sender/key hold for all histories of any length over any number of (pgn,src,dst) streams under the stated channel model (consecutive counters on a stream differ; stale frames carry another counter; senders satisfy msg_ok, proved for the library's segmenter with up to 6 filler bytes); C04_unrepaired_refuted shows the padding dependence of the code before fix 5097fe2",
          "Trusted: kernel + vm_compute; FastPacket.v tied by adversarial decode_tcp histories incl. final buffer contents; tcp_frame + Header.extract_header stand in for the decode_tcp front end; channel-model hypotheses. Theorems closed under the global context.",
          "DESIGN.md §5 C04"),
+
+ "C06": ("Coq proof (structural induction on byte lists / token lists; arithmetic modulo 256 for the checksum) of hand models of the four encoders and four parsers + kernel-evaluated (vm_compute) correspondence with encoder.py/decoder.py on seeded frames, lines and malformed input",
+         "C06_roundtrip_ebyte/usb/yd/actisense: for EVERY canonical header and frame list (data of 0..8 bytes; lines need >= 1 byte) the encoder's packets are parsed back by the matching parser to the same (pgn, priority, source, destination, data); C06_sizes: every EByte packet has 13 bytes, every USB packet 20 bytes with checksum = byte 19, every Yacht Devices packet is one line ending in CR LF with no CR/LF inside; C06_checksum / C06_checksum_any: changing any one of bytes 2..19 of ANY accepted USB packet to ANY other value makes decode_usb reject it; C06_split: a concatenation of packets is cut back into the same packets by fixed 13-byte reads, 20-byte windows / the serial marker search, and line reads. The field-value part of the round trip (encode message -> payload -> decode) is C02/C09/C01; the tie between the parsed tuple and the returned message is the search oracle on the real code.",
+         None, "DESIGN.md §5 C06"),
+ "C07": ("Coq proof (one theorem over all renderings of a frame in the five input grammars, by induction on token lists) of hand models of the five front-ends down to the argument tuple handed to _decode + kernel-evaluated correspondence of every front-end with the real parsers",
+         "C07_frontends: for EVERY 29-bit identifier and data bytes, every EByte packet (any flag bits, any padding), every USB packet (any type/reserved bytes, padding), every canboat line (either time-stamp form, any decimal spelling, hex tokens in any case, extra tokens), every Yacht Devices line (R/T, any hex case, leading zeros, trailing whitespace) and every Actisense line carrying that frame hands _decode the SAME tuple (pgn, priority, source, destination, reversed data) — so everything behind _decode is identical; C07_assembled: frame-by-frame delivery through any mix of the three frame-level formats reassembles (for any segmenter/reassembler pair that is inverse, instantiated by C03) to exactly what the pre-assembled formats hand over in one call.",
+         None, "DESIGN.md §5 C07"),
+ "C10": ("Coq proof by induction over the call history (simulation between the filtered and the unfiltered decoder run: equal source maps, reassembly stores related by the numeric pre-filter) of a hand model of the repaired filter logic, for all configurations and all databases satisfying two checked hypotheses + kernel-evaluated history correspondence with the real decoder",
+         "Theorem C10: for EVERY filter configuration the constructor accepts (numbers, ids in any letter case, mixed, with/without the claim PGN, empty) and EVERY history, position by position the filtered decoder returns exactly the unfiltered decoder's message when its PGN is permitted (same message value) and nothing otherwise, and both decoders hold the same source map after every call (claims update it even when filtered).",
+         None, "DESIGN.md §5 C10"),
+ "C11": ("Coq proof (invariant: source map = identity_after history, by induction over histories) of a hand model of the claim handling / manufacturer filter / discovery window + kernel-evaluated history correspondence with the real decoder",
+         "C11_identity (every returned message carries the identity decoded from the most recent decodable claim of its own source, or none), C11_srcmap (the map IS that specification after any history), C11_isolation (a call from one address never changes another address's entry, from any state), C11_manufacturer (a returned non-claim message of a claimed source passed the exclude/include lists case-insensitively; unknown manufacturer passes no include list), C11_discovery (network map on, inside the window: nothing but claims from an unclaimed source). The clock is an input bit per call (inside / outside the window).",
+         None, "DESIGN.md §5 C11"),
+ "C12": ("Coq proof (induction over chunk lists and over runs of a labelled transition system of StreamReader + receive task + queue + consumer, with a delivery invariant and a progress measure) of a hand model + kernel-evaluated trace correspondence with the real clients on a virtual-time event loop; serial framing by C20_chunking",
+         "C12_chunking_ebyte / _lines (packets cut out are independent of the segmentation), C12_chunking_any_schedule (and of the interleaving of arrivals, receive steps and callbacks), C12_delivery (in EVERY run the callback has been invoked on a prefix of the expected message list, rest queued in order: nothing else, nothing twice, nothing reordered, whatever callbacks return/raise/suspend; at quiescence exactly the list), C12_decode_error_skipped, C12_progress_enabled / _measure (delivery cannot get stuck), stability lemmas for readline/readexactly. The decoder is a universally quantified state-passing function. Waveshare framing: C20's theorems; its queue/consumer is the same model.",
+         None, "DESIGN.md §5 C12"),
+ "C15": ("Coq proof (structural induction over field lists of the tree printer/parser; run induction for the dump) of a hand model of to_json/from_json above orjson's text layer and of the dump filter + kernel-evaluated correspondence on decoded messages of all field types",
+         "C15_fields_partial (for every message without a non-finite double: PGN, id, addressing and per field id, value and raw value survive to_json/from_json up to the stated renderings), C15_full_is_false (the unguarded statement is refuted: NaN -> null -> None, known finding), C15_fields (what every attribute looks like without the guard), C15_reencode (ANY encoder reading only JSON-exact components yields the same bytes or the same failure from the parsed message), C15_dump / C15_dump_filter (the dump holds exactly the JSON lines of returned messages matching number / lower-cased id / empty filter, in order). PARTIAL: orjson's text layer is assumed (exercised by re-parsing every text with the standard json module).",
+         None, "DESIGN.md §5 C15"),
+ "C16": ("Coq proofs about the decoder-control step function from ANY state (frame lemmas per reassembly key, error neutrality, determinism, product of instances) + fail-closed ast check of shared mutable state in __init__ (tools/tr_init.py) + kernel-evaluated multi-instance history correspondence",
+         "C16_error_neutral (a raising call leaves the source map and every other key's record alone), C16_ignored, C16_frame (no call touches another key's record), C16_single (a single-frame result depends only on configuration, its source's map entry and the clock bit), C16_fast_fresh / C16_fast_inorder (a fast-packet message with a fresh counter gives the same results after ANY garbage history, namely the decode of its payload), C16_fresh_decoder, C16_deterministic, C16_product (several decoders alive at once: each returns what it returns alone). PARTIAL: absence of aliasing between Python objects is a syntactic freshness check plus differential runs, not a heap proof.",
+         None, "DESIGN.md §5 C16"),
+ "C17": ("Coq proof (injectivity of the '_'-joined key over typed key signatures; congruence) of a hand model of the hash key, md5 and str(float) universally quantified + per-run kernel-checked table obligation (OblC17: key signatures of all definitions regenerated from pgns.py/canboat.json) + correspondence real msg.hash = md5(model key)",
+         "C17_congruence (equal id and equal primary-key raw values => equal hash whatever else differs), C17_units (unit conversion leaves hash, id, key raw values alone), C17_key_injective (the key string is injective in (id, key raw values) for every signature table with a text key last), C17 (hashes differ when id or a key raw value differs, given md5 does not collide on the two keys), C17_on / C17_off (hash set iff network mapping on). PARTIAL: md5 collision-freeness is a premise; F-none-text guard (text key literally 'None').",
+         None, "DESIGN.md §5 C17"),
+ "C18": ("Coq proof (frame theorem field by field; exact characterisation of recognised (quantity, preference) pairs; commutation with decoding) of a hand model of apply_preferred_units and the converters on primitive floats, round(x,n)/math.degrees universally quantified + kernel-evaluated correspondence (bit-exact floats)",
+         "C18_frame (field by field either unchanged or ONLY value and unit label changed; all message attributes kept), C18_recognised (exactly TEMPERATURE c/f, PRESSURE bar/psi, ANGLE deg, SPEED kts), C18_lowercase, C18_absent (None stays None), C18_converted_float/int (the formula fed to round), C18_unrecognised (nothing changes), C18_total (no exception on decoder-produced values), C18_commutes (decoding with preferences = converting after decoding without). PARTIAL: numerical accuracy of round(x, n) and math.degrees is assumed (sampled against exact rationals by the search).",
+         None, "DESIGN.md §5 C18"),
+ "C19": ("Coq proof (invariants over all runs of a labelled transition system of any number of concurrent send() calls with environment-chosen write/drain/callback outcomes) of a hand model of the repaired send() + kernel-evaluated trace correspondence with the four real clients on a virtual-time loop",
+         "C19_exact / C19_exact_call (the packets written by one send are exactly the encoder's packets for its message, in order: all when completed, a prefix in flight or after a fault, none after a failed encoding), C19_contiguous / C19_writer_holds_lock (in EVERY run the writes of two sends do not interleave), C19_bad_message / C19_no_encoder (an encoding failure writes nothing and leaves state, writer, lock, reconnect trigger, status trace and every other send unchanged), C19_write_fault (a failing write/drain releases the lock, reports DISCONNECTED once unless CLOSED and creates a connect task). The encoder is a universally quantified state-passing function; SendProofs.unlocked_interleaves refutes contiguity for the code before fix 22721ce.",
+         None, "DESIGN.md §5 C19"),
 }
 PENDING_REASON = "not claimed yet: model/theorems for this property are still being built (see DESIGN.md §9 build order)"
+
+def auto_note(pid):
+    """level note from the harness module's own TRUSTED / ASSUMPTIONS lists"""
+    sys.path.insert(0, os.path.join(HERE, "tools"))
+    import importlib
+    mod = importlib.import_module(f"props.{pid.lower()}")
+    t = "; ".join(getattr(mod, "TRUSTED", []))
+    a = "; ".join(getattr(mod, "ASSUMPTIONS", []))
+    return ("Trusted: Coq kernel + vm_compute; " + t + ". Assumptions: " + a +
+            ". Theorem files end each theorem with Print Assumptions (recorded in the evidence file).")
+
 
 def main():
     checks = []
@@ -80,6 +127,8 @@ def main():
         if pid not in CLAIMED:
             continue
         tech, text, note, ref = CLAIMED[pid]
+        if note is None:
+            note = auto_note(pid)
         checks.append({
             "property_id": pid,
             "quick_cmd": f"./check {pid} --tier quick",
